@@ -26,6 +26,10 @@ pub struct Case {
     pub entropy: u64,
     /// chained runs (process incarnations sharing a disk): this phase's process is killed at this step (0 = never)
     pub kill_step: u64,
+    /// plan of injected I/O errors for this phase's process (0 = none)
+    pub io_fault: u64,
+    /// this phase ends in a power loss chosen by this seed (0 = none)
+    pub power: u64,
     /// the phases that run before this one (each without prefix / next of its own) ...
     pub prefix: Vec<Case>,
     /// ... and the phase that runs after it
@@ -63,7 +67,7 @@ impl Case {
     }
     pub fn size(&self) -> (usize, usize, usize, usize, usize) {
         let intra = self.switches.iter().filter(|s| s.tick != 0).count();
-        let churn: usize = self.churn.iter().map(|c| c.len()).sum::<usize>() + self.jumps.iter().map(|c| c.len()).sum::<usize>() + self.depths.iter().map(|c| c.len()).sum::<usize>();
+        let churn: usize = self.churn.iter().map(|c| c.len()).sum::<usize>() + self.jumps.iter().map(|c| c.len()).sum::<usize>() + self.depths.iter().map(|c| c.len()).sum::<usize>() + (self.io_fault != 0) as usize + (self.power != 0) as usize;
         let text: usize = self.threads.iter().flat_map(|t| t.iter()).map(|c| c.expr.len()).sum();
         (self.total_calls(), self.threads.len(), intra + churn, self.switches.len(), text)
     }
@@ -77,6 +81,8 @@ impl Case {
             "cpu_limits": self.cpus,
             "entropy_seed": self.entropy.to_string(),
             "kill_step": self.kill_step.to_string(),
+            "io_fault_plan": self.io_fault.to_string(),
+            "power_loss_seed": self.power.to_string(),
             "phases_before": self.prefix.iter().map(|p| p.to_json()).collect::<Vec<_>>(),
             "next_phase": self.next.as_ref().map(|n| n.to_json()).unwrap_or(Value::Null),
             "stack_depths_kb": self.depths.iter().map(|t| t.iter().map(|(k, a)| json!([k, a])).collect::<Vec<_>>()).collect::<Vec<_>>(),
@@ -134,9 +140,11 @@ impl Case {
         cpus.resize(threads.len(), 0);
         let entropy = v.get("entropy_seed").and_then(|x| x.as_str()).and_then(|x| x.parse::<u64>().ok()).unwrap_or(0);
         let kill_step = v.get("kill_step").and_then(|x| x.as_str()).and_then(|x| x.parse::<u64>().ok()).unwrap_or(0);
+        let io_fault = v.get("io_fault_plan").and_then(|x| x.as_str()).and_then(|x| x.parse::<u64>().ok()).unwrap_or(0);
+        let power = v.get("power_loss_seed").and_then(|x| x.as_str()).and_then(|x| x.parse::<u64>().ok()).unwrap_or(0);
         let prefix: Vec<Case> = v.get("phases_before").and_then(|x| x.as_array()).map(|a| a.iter().filter_map(Case::from_json).collect()).unwrap_or_default();
         let next = v.get("next_phase").and_then(Case::from_json).map(Box::new);
-        Some(Case { threads, churn, start, switches, jumps, depths, cpus, entropy, kill_step, prefix, next })
+        Some(Case { threads, churn, start, switches, jumps, depths, cpus, entropy, kill_step, io_fault, power, prefix, next })
     }
     pub fn from_spec(pool: &Pool, spec: &RunSpec, start: u32, switches: Vec<Sw>) -> Case {
         Case {
@@ -153,6 +161,8 @@ impl Case {
             cpus: spec.cpu_limits.clone(),
             entropy: spec.seed,
             kill_step: spec.kill_step,
+            io_fault: spec.io_fault,
+            power: spec.power,
             prefix: Vec::new(),
             next: None,
         }
@@ -280,6 +290,8 @@ fn materialise_phase(case: &Case, oc: &mut OracleCache, pool: &mut Pool, idx: &m
             c
         },
         kill_step: case.kill_step,
+        io_fault: case.io_fault,
+        power: case.power,
         next: None,
     };
     Some(spec)
